@@ -155,3 +155,134 @@ def parse_and_validate(res, **kw):
     t4 = t4read.parse(res.t4_text)
     issues = t4read.validate(t4, **kw)
     return t4, issues
+
+
+# --------------------------------------------------------------------------
+# hierarchy: provenance comments and compositions
+# --------------------------------------------------------------------------
+
+import re as _re
+
+_FORTRAN_RE = _re.compile(r'^([-+]?(?:\d+\.?\d*|\.\d+))(?:[eEdD]?([-+]?\d+))?$')
+
+
+def parse_real(text):
+    """Parse an MCNP / Fortran real number spelling ('6.4-2', '1.d0')."""
+    m = _FORTRAN_RE.match(text.strip())
+    if not m:
+        raise ValueError('not a real number: %r' % text)
+    mant, exp = m.groups()
+    return float(mant) * (10.0 ** int(exp) if exp else 1.0)
+
+
+def parse_comp_name(name):
+    """'m3_-2.7' -> (3, -2.7); 'm0' -> (0, None)."""
+    m = _re.match(r'^m(\d+)(?:_(.+))?$', name)
+    if not m:
+        return None
+    mat = int(m.group(1))
+    if m.group(2) is None:
+        return mat, None
+    try:
+        return mat, parse_real(m.group(2))
+    except ValueError:
+        return None
+
+
+def hierarchy_mismatches(cmp_, deck, check_prov=True, check_comp=False,
+                         limit=4):
+    """Provenance / composition mismatches for points that lie in exactly
+    one volume as expected."""
+    out = []
+    t4 = cmp_.t4
+    loc = cmp_.loc
+    max_cell = max(c['id'] for c in deck['cells'])
+    cells = {c['id']: c for c in cmp_.locator.deck['cells']}
+    comp_of = t4.comp_of_volume() if check_comp else {}
+    synth = {}      # synthetic id -> (lattice cell, index)
+    rsynth = {}
+    sel = np.nonzero(cmp_.decided & cmp_.expected_in() & (cmp_.nvol == 1))[0]
+    seen = set()
+    for i in sel:
+        vid = cmp_.volumes_at(i)[0]
+        chain = loc.chain[i]
+        owner = int(loc.owner[i])
+        key = (vid, owner, chain)
+        if key in seen:
+            continue
+        seen.add(key)
+        vol = t4.volus[vid]
+        problem = None
+        leaf_is_element = bool(chain) and chain[-1][0] == 'l' and \
+            chain[-1][1] == owner
+        if check_prov:
+            if not chain:
+                if vid != owner:
+                    problem = 'level-0 point in volume %d, owner %d' % (vid, owner)
+            else:
+                prov = vol.prov
+                if len(prov) != len(chain):
+                    problem = 'comment %r has %d pairs, chain %r' % (
+                        vol.comment, len(prov), chain)
+                else:
+                    firsts = set(a for a, _b in prov)
+                    if len(firsts) != 1:
+                        problem = 'comment %r mixes filler ids' % vol.comment
+                    else:
+                        first = prov[0][0]
+                        if leaf_is_element:
+                            if first <= max_cell:
+                                problem = ('own-universe lattice element '
+                                           'reported as real cell %d' % first)
+                        elif first != owner:
+                            problem = 'comment %r names filler %d, owner is %d' \
+                                % (vol.comment, first, owner)
+                    if problem is None:
+                        # containers innermost -> outermost
+                        for (a, b), ent in zip(prov, reversed(chain)):
+                            if ent[0] == 'c':
+                                if b != ent[1]:
+                                    problem = ('comment %r names container %d, '
+                                               'model container %d'
+                                               % (vol.comment, b, ent[1]))
+                                    break
+                            else:
+                                k = (ent[1], ent[2])
+                                if leaf_is_element and ent is chain[-1]:
+                                    # the element itself is the filler
+                                    continue
+                                if b <= max_cell:
+                                    problem = ('lattice element reported as '
+                                               'real cell %d' % b)
+                                    break
+                                if synth.setdefault(b, k) != k or \
+                                        rsynth.setdefault(k, b) != b:
+                                    problem = ('synthetic id %d used for two '
+                                               'lattice elements' % b)
+                                    break
+        if problem is None and check_comp:
+            names = comp_of.get(vid, [])
+            mat, rho = cells[owner]['mat'], cells[owner]['rho']
+            if len(names) != 1:
+                problem = 'volume %d assigned to %r' % (vid, names)
+            else:
+                got = parse_comp_name(names[0])
+                if got is None:
+                    problem = 'unparsable composition name %r' % names[0]
+                elif mat == 0:
+                    if got != (0, None):
+                        problem = 'void cell %d in composition %s' % (owner, names[0])
+                else:
+                    want = parse_real(rho)
+                    if got[0] != mat or got[1] is None or \
+                            abs(got[1] - want) > 1e-12 * abs(want):
+                        problem = ('cell %d (m%d, %s) in composition %s'
+                                   % (owner, mat, rho, names[0]))
+        if problem:
+            w = cmp_.witness('hierarchy', i)
+            w['problem'] = problem
+            w['comment'] = vol.comment
+            out.append(w)
+            if len(out) >= limit:
+                break
+    return out
